@@ -35,6 +35,11 @@ import gen_c20
 PID = 'C20'
 FLAGS = ['-O0', '-s', '-w']
 PROPERTY_SPLIT = 512          # the number named by the property text (quantifier)
+# clang 14 + libstdc++ 12: instantiating a std::tuple of n elements nests about 2n templates; the default
+# -ftemplate-depth (1024) is exceeded from n = 508, i.e. BELOW the 512 threshold of aggregate (measured by
+# clang_default_limit_probe in the thorough tier, reported in the evidence). The programs are compiled with
+# a larger depth so that registration can be observed at 508..512 too.
+COMPILER_FLAGS = {'clang++': ['-ftemplate-depth=4096']}
 
 
 # ---------------------------------------------------------------------------- helpers (own; not in vlib)
@@ -78,7 +83,8 @@ def prune_bins(keep, others=3):
 
 def compile_program(src, compiler):
     """returns (binary or None, log, seconds, cached)"""
-    key = hashlib.sha1((include_hash() + compiler + ' '.join(FLAGS) + src).encode()).hexdigest()[:24]
+    flags = FLAGS + COMPILER_FLAGS.get(compiler, [])
+    key = hashlib.sha1((include_hash() + compiler + ' '.join(flags) + src).encode()).hexdigest()[:24]
     d = bin_dir()
     binp = os.path.join(d, key + '.bin')
     if os.path.exists(binp):
@@ -88,7 +94,7 @@ def compile_program(src, compiler):
         f.write(src)
     tmp = binp + '.%d.tmp' % os.getpid()
     t0 = time.time()
-    cmd = [compiler, '-std=c++17', '-D' + vlib.GUARD, '-I', os.path.join(vlib.REPO, 'include')] + FLAGS + [cpp, '-o', tmp]
+    cmd = [compiler, '-std=c++17', '-D' + vlib.GUARD, '-I', os.path.join(vlib.REPO, 'include')] + flags + [cpp, '-o', tmp]
     rc, out = vlib.run(cmd, timeout=900)
     dt = time.time() - t0
     try:
@@ -103,6 +109,33 @@ def compile_program(src, compiler):
         return None, out[-3000:], dt, False
     os.rename(tmp, binp)
     return binp, 'built', dt, False
+
+
+def clang_default_limit_probe(thr):
+    """largest n <= thr for which `aggregate<E<0>..E<n-1>> a;` compiles with clang++ and its DEFAULT limits
+    (-fsyntax-only, bisection); None when clang++ is missing. thr itself compiling -> thr."""
+    if not shutil.which('clang++') or not thr or thr > 2000:
+        return None
+    d = bin_dir()
+
+    def ok(n):
+        src = ('#include <yorel/yomm2/core.hpp>\n#include <yorel/yomm2/templates.hpp>\ntemplate<int> struct E { E() {} };\n'
+               'yorel::yomm2::aggregate<%s> a;\nint main() {}\n' % ','.join('E<%d>' % i for i in range(n)))
+        p = os.path.join(d, 'probe.%d.cpp' % os.getpid())
+        open(p, 'w').write(src)
+        rc, out = vlib.run(['clang++', '-std=c++17', '-O0', '-w', '-fsyntax-only', '-D' + vlib.GUARD, '-I', os.path.join(vlib.REPO, 'include'), p], timeout=300)
+        os.remove(p)
+        return rc == 0
+    if ok(thr):
+        return thr
+    lo, hi = 0, thr
+    while hi - lo > 1:
+        mid = (lo + hi) // 2
+        if ok(mid):
+            lo = mid
+        else:
+            hi = mid
+    return lo
 
 
 def parse_lines(text):
@@ -579,6 +612,20 @@ def main():
     finally:
         runner.close()
 
+    clang_limit = None
+    if ctx.thorough:
+        clang_limit = clang_default_limit_probe(thr)
+        if clang_limit is not None and thr and clang_limit < thr:
+            msg = ('clang++ with its default -ftemplate-depth cannot compile a single-tuple aggregate of more than %d elements '
+                   '(libstdc++ std::tuple), although aggregate only splits above %d: use_definitions with %d..%d defined combinations '
+                   'needs -ftemplate-depth raised (the check compiles clang++ programs with %s)'
+                   % (clang_limit, thr, clang_limit + 1, thr, ' '.join(COMPILER_FLAGS['clang++'])))
+            if any(f['kind'] == 'finding' and f['property'] == PID and f['key'] == 'clang-template-depth' for f in ctx.findings):
+                ctx.violation(msg, {'probe': 'aggregate<E<0>..E<n-1>> a; clang++ -fsyntax-only', 'largest_ok': clang_limit, 'threshold': thr},
+                              finding_key='clang-template-depth')
+            else:
+                ctx.notes.append(msg)
+
     # ---------------------------------------------------------------- evidence
     res = [r for r in runner.results if r['got'] is not None]
     keys = {}
@@ -646,6 +693,8 @@ def main():
         'samples': samples,
         'input_distribution': dist,
         'translated_constants': {'aggregate_threshold': thr, 'aggregate_split_den': den, 'property_text_split': PROPERTY_SPLIT},
+        'clang_default_limit_largest_single_tuple': clang_limit,
+        'compiler_flags': {'all': FLAGS, 'clang++': COMPILER_FLAGS['clang++']},
         'order_sensitive_comparisons': 'product<> and apply_product<> element order (oracle and model); leaf order and aggregate shape (model only); '
                                        'catalog vs oracle as multisets (tuple sub-object construction order is unspecified; observed: see input_distribution.catalog_vs_leaf_order)',
         'oracle_failures': stats['failing'],
